@@ -1,6 +1,7 @@
 import ArrProofs.Lemmas.C17Replace
 import ArrProofs.Lemmas.C17Misc
 import ArrProofs.Lemmas.C17Lift
+import ArrProofs.Lemmas.C17Ext
 /-!
 # C17 — string-array operations apply the per-string function at every position
 
@@ -484,5 +485,445 @@ example : less ['a', ' ', ' '] ['a', 'b'] = true ∧ equal ['a', ' '] ['a'] = tr
 example : count ['a', 'a', 'a'] ['a', 'a'] = 1 ∧ count ['a', 'b'] [] = 3 := by decide
 example : splitlines ['a', '\n', 'b', '\r', '\n', 'c', '\r'] true = [['a', '\n'], ['b', '\r', '\n'], ['c', '\r']] := by decide
 example : lift2 Bcast.std append ⟨[['a'], ['b']], [2]⟩ ⟨[['c'], ['d']], [2]⟩ = .ok ⟨[['a', 'c'], ['b', 'd']], [2]⟩ := by decide
+
+/-! ## 8. extension: the ASCII tables of the case maps and of the `is_*` classes, `translate`, `zfill` -/
+
+/-- the model's ASCII tables are the ones core Lean's `Char` defines independently
+(`char::is_whitespace` additionally has VT and FF) -/
+theorem tables_eq_core (c : Char) :
+    isUpperC c = c.isUpper ∧ isLowerC c = c.isLower ∧ isAlphaC c = c.isAlpha ∧ isDigitC c = c.isDigit ∧
+    isAlnumC c = c.isAlphanum ∧ toLowerC c = c.toLower ∧ toUpperC c = c.toUpper ∧
+    isSpaceC c = (c.isWhitespace || c == Char.ofNat 11 || c == Char.ofNat 12) := by
+  refine ⟨isUpperC_eq_core c, isLowerC_eq_core c, ?_, isDigitC_eq_core c, ?_, toLowerC_eq_core c, toUpperC_eq_core c,
+    isSpaceC_eq_core c⟩
+  · simp only [isAlphaC, Char.isAlpha, isUpperC_eq_core, isLowerC_eq_core]
+  · simp only [isAlnumC, isAlphaC, Char.isAlphanum, Char.isAlpha, isUpperC_eq_core, isLowerC_eq_core, isDigitC_eq_core]
+
+theorem case_maps_eq_core (s : Str) : lower s = s.map Char.toLower ∧ upper s = s.map Char.toUpper := by
+  constructor
+  · unfold lower; congr 1; funext c; exact toLowerC_eq_core c
+  · unfold upper; congr 1; funext c; exact toUpperC_eq_core c
+
+/-- the tables in numbers: `lower` adds 32 to the code points 65..90, `upper` subtracts 32 from 97..122, `swapcase`
+does both, every other character (non-ASCII included) is left alone — and `Char.ofNat` never leaves the valid range -/
+theorem case_codepoints (s : Str) (i : Nat) (c : Char) (h : s[i]? = some c) :
+    (∃ d, (lower s)[i]? = some d ∧ d.toNat = if 65 ≤ c.toNat ∧ c.toNat ≤ 90 then c.toNat + 32 else c.toNat) ∧
+    (∃ d, (upper s)[i]? = some d ∧ d.toNat = if 97 ≤ c.toNat ∧ c.toNat ≤ 122 then c.toNat - 32 else c.toNat) ∧
+    (∃ d, (swapcase s)[i]? = some d ∧ d.toNat = if 97 ≤ c.toNat ∧ c.toNat ≤ 122 then c.toNat - 32
+        else if 65 ≤ c.toNat ∧ c.toNat ≤ 90 then c.toNat + 32 else c.toNat) := by
+  refine ⟨⟨toLowerC c, by simp [lower, h], toNat_toLowerC c⟩, ⟨toUpperC c, by simp [upper, h], toNat_toUpperC c⟩,
+    ⟨swapC c, by simp [swapcase_eq_map, h], toNat_swapC c⟩⟩
+
+/-- the algebra of the case maps (every string, non-ASCII characters included: the model leaves them alone) -/
+theorem case_algebra (s : Str) :
+    lower (lower s) = lower s ∧ upper (upper s) = upper s ∧ upper (lower s) = upper s ∧ lower (upper s) = lower s ∧
+    swapcase (swapcase s) = s ∧ lower (swapcase s) = lower s ∧ upper (swapcase s) = upper s ∧
+    swapcase (lower s) = upper s ∧ swapcase (upper s) = lower s := by
+  simp only [swapcase_eq_map, lower, upper, List.map_map]
+  refine ⟨?_, ?_, ?_, ?_, ?_, ?_, ?_, ?_, ?_⟩
+  · congr 1; funext c; exact toLowerC_idem c
+  · congr 1; funext c; exact toUpperC_idem c
+  · congr 1; funext c; exact toUpperC_toLowerC c
+  · congr 1; funext c; exact toLowerC_toUpperC c
+  · conv => rhs; rw [← List.map_id s]
+    congr 1; funext c; exact swapC_swapC c
+  · congr 1; funext c; exact toLowerC_swapC c
+  · congr 1; funext c; exact toUpperC_swapC c
+  · congr 1; funext c; exact swapC_toLowerC c
+  · congr 1; funext c; exact swapC_toUpperC c
+
+/-- `lower` leaves a text unchanged exactly when it has no upper-case letter; its result never has one -/
+theorem lower_fixed_iff (s : Str) :
+    (lower s = s ↔ ∀ c ∈ s, isUpperC c = false) ∧ (∀ c ∈ lower s, isUpperC c = false) := by
+  refine ⟨lower_eq_self_iff s, ?_⟩
+  intro c hc
+  obtain ⟨d, _, rfl⟩ := List.mem_map.1 hc
+  exact isUpperC_toLowerC d
+
+theorem upper_fixed_iff (s : Str) :
+    (upper s = s ↔ ∀ c ∈ s, isLowerC c = false) ∧ (∀ c ∈ upper s, isLowerC c = false) := by
+  refine ⟨upper_eq_self_iff s, ?_⟩
+  intro c hc
+  obtain ⟨d, _, rfl⟩ := List.mem_map.1 hc
+  exact isLowerC_toUpperC d
+
+/-- comparing without regard to case: through `lower` or through `upper` is the same relation -/
+theorem caseless_eq (s t : Str) : lower s = lower t ↔ upper s = upper t := by
+  constructor
+  · intro h; have := congrArg upper h
+    rwa [(case_algebra s).2.2.1, (case_algebra t).2.2.1] at this
+  · intro h; have := congrArg lower h
+    rwa [(case_algebra s).2.2.2.1, (case_algebra t).2.2.2.1] at this
+
+/-- **is_lower**: there is a lower-case letter and no upper-case letter (characters without case are ignored) -/
+theorem isLower_iff (s : Str) :
+    isLower s = true ↔ (∃ c ∈ s, isLowerC c = true) ∧ ∀ c ∈ s, isUpperC c = false := by
+  rw [isLower_eq]; simp
+
+/-- **is_upper**: there is an upper-case letter and no lower-case letter -/
+theorem isUpper_iff (s : Str) :
+    isUpper s = true ↔ (∃ c ∈ s, isUpperC c = true) ∧ ∀ c ∈ s, isLowerC c = false := by
+  rw [isUpper_eq]; simp
+
+/-- … equivalently: the text has a letter and is a fixed point of `lower` / `upper` -/
+theorem isLower_iff_fixed (s : Str) :
+    (isLower s = true ↔ lower s = s ∧ ∃ c ∈ s, isAlphaC c = true) ∧
+    (isUpper s = true ↔ upper s = s ∧ ∃ c ∈ s, isAlphaC c = true) := by
+  rw [isLower_iff, isUpper_iff, lower_eq_self_iff, upper_eq_self_iff]
+  constructor
+  · constructor
+    · rintro ⟨⟨c, hc, hl⟩, hall⟩; exact ⟨hall, c, hc, (isAlphaC_iff c).2 (.inr hl)⟩
+    · rintro ⟨hall, c, hc, ha⟩
+      refine ⟨⟨c, hc, ?_⟩, hall⟩
+      rcases (isAlphaC_iff c).1 ha with hu | hl
+      · rw [hall c hc] at hu; cases hu
+      · exact hl
+  · constructor
+    · rintro ⟨⟨c, hc, hl⟩, hall⟩; exact ⟨hall, c, hc, (isAlphaC_iff c).2 (.inl hl)⟩
+    · rintro ⟨hall, c, hc, ha⟩
+      refine ⟨⟨c, hc, ?_⟩, hall⟩
+      rcases (isAlphaC_iff c).1 ha with hu | hl
+      · exact hu
+      · rw [hall c hc] at hl; cases hl
+
+/-- the case maps and the case tests: `lower s` is lower-case as soon as `s` has a letter, never upper-case;
+`swapcase` exchanges the two tests; no text is both -/
+theorem isLower_case_maps (s : Str) :
+    isLower (lower s) = s.any isAlphaC ∧ isUpper (upper s) = s.any isAlphaC ∧
+    isUpper (lower s) = false ∧ isLower (upper s) = false ∧
+    isLower (swapcase s) = isUpper s ∧ isUpper (swapcase s) = isLower s ∧
+    (isLower s = true → isUpper s = false) := by
+  simp only [isLower_eq, isUpper_eq, lower, upper, swapcase_eq_map, List.any_map, List.all_map]
+  refine ⟨?_, ?_, ?_, ?_, ?_, ?_, ?_⟩
+  · have h1 : (isLowerC ∘ toLowerC) = isAlphaC := funext isLowerC_toLowerC
+    have h2 : ((fun c => !isUpperC c) ∘ toLowerC) = fun _ => true := by
+      funext c; simp [isUpperC_toLowerC]
+    rw [h1, h2]; simp
+  · have h1 : (isUpperC ∘ toUpperC) = isAlphaC := funext isUpperC_toUpperC
+    have h2 : ((fun c => !isLowerC c) ∘ toUpperC) = fun _ => true := by
+      funext c; simp [isLowerC_toUpperC]
+    rw [h1, h2]; simp
+  · have h1 : (isUpperC ∘ toLowerC) = fun _ => false := funext isUpperC_toLowerC
+    rw [h1]; simp
+  · have h1 : (isLowerC ∘ toUpperC) = fun _ => false := funext isLowerC_toUpperC
+    rw [h1]; simp
+  · have h1 : (isLowerC ∘ swapC) = isUpperC := funext isLowerC_swapC
+    have h2 : ((fun c => !isUpperC c) ∘ swapC) = fun c => !isLowerC c := by
+      funext c; simp [isUpperC_swapC]
+    rw [h1, h2]
+  · have h1 : (isUpperC ∘ swapC) = isLowerC := funext isUpperC_swapC
+    have h2 : ((fun c => !isLowerC c) ∘ swapC) = fun c => !isUpperC c := by
+      funext c; simp [isLowerC_swapC]
+    rw [h1, h2]
+  · intro h
+    simp only [Bool.and_eq_true, List.any_eq_true, List.all_eq_true, Bool.not_eq_true'] at h
+    obtain ⟨⟨c, hc, hl⟩, hall⟩ := h
+    rw [Bool.and_eq_false_iff]; right
+    rw [List.all_eq_false]
+    exact ⟨c, hc, by simp [hl]⟩
+
+/-- **the class tests** in terms of core Lean's character classes: non-empty and every character in the class;
+`is_digit` demands exactly one character; `is_numeric` = `is_decimal` on ASCII -/
+theorem class_spec (s : Str) :
+    (isAlpha s = true ↔ s ≠ [] ∧ ∀ c ∈ s, c.isAlpha = true) ∧
+    (isAlnum s = true ↔ s ≠ [] ∧ ∀ c ∈ s, c.isAlphanum = true) ∧
+    (isDecimal s = true ↔ s ≠ [] ∧ ∀ c ∈ s, c.isDigit = true) ∧
+    (isNumeric s = isDecimal s) ∧
+    (isDigit s = true ↔ ∃ c, s = [c] ∧ c.isDigit = true) ∧
+    (isSpace s = true ↔ s ≠ [] ∧ ∀ c ∈ s, (9 ≤ c.toNat ∧ c.toNat ≤ 13) ∨ c.toNat = 32) := by
+  have hA : isAlphaC = Char.isAlpha := funext fun c => (tables_eq_core c).2.2.1
+  have hN : isAlnumC = Char.isAlphanum := funext fun c => (tables_eq_core c).2.2.2.2.1
+  have hD : isDigitC = Char.isDigit := funext fun c => (tables_eq_core c).2.2.2.1
+  refine ⟨?_, ?_, ?_, rfl, ?_, ?_⟩
+  · simp [isAlpha, hA]
+  · simp [isAlnum, hN]
+  · simp [isDecimal, hD]
+  · unfold isDigit; rw [hD]
+    constructor
+    · intro h
+      simp only [Bool.and_eq_true, beq_iff_eq, List.all_eq_true] at h
+      obtain ⟨c, rfl⟩ := List.length_eq_one_iff.1 h.1
+      exact ⟨c, rfl, h.2 c (by simp)⟩
+    · rintro ⟨c, rfl, hc⟩; simp [hc]
+  · simp [isSpace, isSpaceC]
+
+/-- how the tests relate: digit ⊆ decimal ⊆ alnum ⊇ alpha; alnum = every character a letter or a digit;
+letters, digits and white space exclude one another -/
+theorem class_lattice (s : Str) :
+    (isDigit s = true → isDecimal s = true) ∧ (isDecimal s = true → isAlnum s = true) ∧
+    (isAlpha s = true → isAlnum s = true) ∧
+    (isAlnum s = true ↔ s ≠ [] ∧ ∀ c ∈ s, isAlphaC c = true ∨ isDigitC c = true) ∧
+    (isAlpha s = true → isDecimal s = false ∧ isSpace s = false) ∧
+    (isDecimal s = true → isAlpha s = false ∧ isSpace s = false) ∧
+    (isSpace s = true → isAlnum s = false) := by
+  cases s with
+  | nil => simp [isDigit, isDecimal, isAlnum, isAlpha, isSpace]
+  | cons x xs =>
+    have hx := class_disjoint x
+    simp only [isDigit, isDecimal, isAlnum, isAlpha, isSpace, List.isEmpty_cons, Bool.not_false, Bool.true_and,
+      List.all_cons, Bool.and_eq_true, List.all_eq_true, ne_eq, reduceCtorEq, not_false_eq_true, true_and,
+      List.mem_cons, forall_eq_or_imp, beq_iff_eq, Bool.and_eq_false_iff]
+    refine ⟨?_, ?_, ?_, ?_, ?_, ?_, ?_⟩
+    · rintro ⟨_, h1, h2⟩; exact ⟨h1, h2⟩
+    · rintro ⟨h1, h2⟩; exact ⟨by simp [isAlnumC, h1], fun c hc => by simp [isAlnumC, h2 c hc]⟩
+    · rintro ⟨h1, h2⟩; exact ⟨by simp [isAlnumC, h1], fun c hc => by simp [isAlnumC, h2 c hc]⟩
+    · simp [isAlnumC]
+    · rintro ⟨h1, _⟩
+      rcases (isAlphaC_iff x).1 h1 with h | h
+      · exact ⟨.inl (hx.1 h).2.1, .inl (hx.1 h).2.2⟩
+      · exact ⟨.inl (hx.2.1 h).2.1, .inl (hx.2.1 h).2.2⟩
+    · rintro ⟨h1, _⟩
+      exact ⟨.inl (hx.2.2.1 h1).1, .inl (hx.2.2.1 h1).2⟩
+    · rintro ⟨h1, _⟩
+      exact .inl (hx.2.2.2 h1)
+
+/-- the class tests do not see the case maps -/
+theorem class_case_invariant (s : Str) :
+    (isAlpha (lower s) = isAlpha s ∧ isAlpha (upper s) = isAlpha s ∧ isAlpha (swapcase s) = isAlpha s) ∧
+    (isAlnum (lower s) = isAlnum s ∧ isAlnum (upper s) = isAlnum s ∧ isAlnum (swapcase s) = isAlnum s) ∧
+    (isDecimal (lower s) = isDecimal s ∧ isDecimal (upper s) = isDecimal s ∧ isDecimal (swapcase s) = isDecimal s) ∧
+    (isSpace (lower s) = isSpace s ∧ isSpace (upper s) = isSpace s ∧ isSpace (swapcase s) = isSpace s) ∧
+    (isDigit (lower s) = isDigit s ∧ isDigit (upper s) = isDigit s ∧ isDigit (swapcase s) = isDigit s) := by
+  simp only [isAlpha, isAlnum, isDecimal, isSpace, isDigit, lower, upper, swapcase_eq_map, List.isEmpty_map,
+    List.length_map]
+  refine ⟨⟨?_, ?_, ?_⟩, ⟨?_, ?_, ?_⟩, ⟨?_, ?_, ?_⟩, ⟨?_, ?_, ?_⟩, ⟨?_, ?_, ?_⟩⟩
+  · rw [all_map_class _ _ isAlphaC_toLowerC]
+  · rw [all_map_class _ _ isAlphaC_toUpperC]
+  · rw [all_map_class _ _ isAlphaC_swapC]
+  · rw [all_map_class _ _ isAlnumC_toLowerC]
+  · rw [all_map_class _ _ isAlnumC_toUpperC]
+  · rw [all_map_class _ _ isAlnumC_swapC]
+  · rw [all_map_class _ _ isDigitC_toLowerC]
+  · rw [all_map_class _ _ isDigitC_toUpperC]
+  · rw [all_map_class _ _ isDigitC_swapC]
+  · rw [all_map_class _ _ isSpaceC_toLowerC]
+  · rw [all_map_class _ _ isSpaceC_toUpperC]
+  · rw [all_map_class _ _ isSpaceC_swapC]
+  · rw [all_map_class _ _ isDigitC_toLowerC]
+  · rw [all_map_class _ _ isDigitC_toUpperC]
+  · rw [all_map_class _ _ isDigitC_swapC]
+
+/-- on a text of letters only, `is_lower` / `is_upper` say exactly that `lower` / `upper` change nothing -/
+theorem isAlpha_cased (s : Str) (h : isAlpha s = true) :
+    (isLower s = true ↔ lower s = s) ∧ (isUpper s = true ↔ upper s = s) := by
+  have hex : ∃ c ∈ s, isAlphaC c = true := by
+    cases s with
+    | nil => simp [isAlpha] at h
+    | cons x xs =>
+      simp only [isAlpha, List.isEmpty_cons, Bool.not_false, Bool.true_and, List.all_cons, Bool.and_eq_true] at h
+      exact ⟨x, by simp, h.1⟩
+  rw [(isLower_iff_fixed s).1, (isLower_iff_fixed s).2]
+  exact ⟨⟨fun h => h.1, fun h => ⟨h, hex⟩⟩, ⟨fun h => h.1, fun h => ⟨h, hex⟩⟩⟩
+
+/-- a concatenation is in a class exactly when it is non-empty and both parts are in it or empty -/
+theorem class_append (s t : Str) :
+    (isAlpha (s ++ t) = true ↔ (s = [] ∨ isAlpha s = true) ∧ (t = [] ∨ isAlpha t = true) ∧ (s ≠ [] ∨ t ≠ [])) ∧
+    (isAlnum (s ++ t) = true ↔ (s = [] ∨ isAlnum s = true) ∧ (t = [] ∨ isAlnum t = true) ∧ (s ≠ [] ∨ t ≠ [])) ∧
+    (isDecimal (s ++ t) = true ↔ (s = [] ∨ isDecimal s = true) ∧ (t = [] ∨ isDecimal t = true) ∧ (s ≠ [] ∨ t ≠ [])) ∧
+    (isSpace (s ++ t) = true ↔ (s = [] ∨ isSpace s = true) ∧ (t = [] ∨ isSpace t = true) ∧ (s ≠ [] ∨ t ≠ [])) := by
+  cases s <;> cases t <;> simp [isAlpha, isAlnum, isDecimal, isSpace] <;> grind
+
+/-! ### capitalize -/
+
+/-- `_capitalize` = `upper` of the first character followed by the rest UNCHANGED (not lower-cased: the crate
+differs from Python's `capitalize` here) -/
+theorem capitalize_spec (s : Str) : capitalize s = upper (s.take 1) ++ s.drop 1 := by
+  cases s <;> simp [capitalize, upper]
+
+theorem capitalize_algebra (s t : Str) :
+    capitalize (capitalize s) = capitalize s ∧ upper (capitalize s) = upper s ∧ lower (capitalize s) = lower s ∧
+    (s ≠ [] → capitalize (s ++ t) = capitalize s ++ t) ∧
+    (capitalize s = s ↔ ∀ h, s.head? = some h → isLowerC h = false) := by
+  cases s with
+  | nil => simp [capitalize, upper, lower]
+  | cons x xs =>
+    simp only [capitalize, upper, lower, List.map_cons, toUpperC_idem, toLowerC_toUpperC, List.cons_append, ne_eq,
+      reduceCtorEq, not_false_eq_true, forall_const, List.head?_cons, Option.some.injEq, forall_eq', true_and,
+      List.cons.injEq, and_true]
+    exact toUpperC_eq_self_iff x
+
+/-! ### translate -/
+
+/-- **translate**, character by character: the length is kept, and position `i` holds the value of the FIRST table
+row whose key is the character at `i`, or that character itself when no row has it as key -/
+theorem translate_spec (t : List (Char × Char)) (s : Str) :
+    (translate t s).length = s.length ∧
+    ∀ (i : Nat) (c : Char), s[i]? = some c →
+      (∃ k, ∃ hk : k < t.length, t[k].1 = c ∧ (∀ j (hj : j < k), (t[j]'(by omega)).1 ≠ c) ∧
+          (translate t s)[i]? = some t[k].2) ∨
+      ((∀ r ∈ t, r.1 ≠ c) ∧ (translate t s)[i]? = some c) := by
+  refine ⟨by simp [translate_eq_map], ?_⟩
+  intro i c hi
+  have hget : (translate t s)[i]? = some (trC t c) := by simp [translate_eq_map, hi]
+  rcases trC_cases t c with ⟨k, hk, hkey, hfirst, hv⟩ | ⟨hno, hv⟩
+  · exact .inl ⟨k, hk, hkey, hfirst, by rw [hget, hv]⟩
+  · exact .inr ⟨hno, by rw [hget, hv]⟩
+
+/-- one more row in front: it takes the characters equal to its key, all others go through the rest of the table -/
+theorem translate_cons (k v : Char) (t : List (Char × Char)) (s : Str) :
+    translate ((k, v) :: t) s = List.zipWith (fun c d => if c = k then v else d) s (translate t s) := by
+  simp only [translate_eq_map]
+  induction s with
+  | nil => rfl
+  | cons x xs ih => simp only [List.map_cons, List.zipWith_cons_cons, ih, trC_cons]
+
+theorem translate_algebra (t t2 : List (Char × Char)) (s u : Str) :
+    translate [] s = s ∧ translate t (s ++ u) = translate t s ++ translate t u ∧
+    ((∀ c ∈ s, ∀ r ∈ t, r.1 ≠ c) → translate t s = s) ∧
+    ((∀ c ∈ s, ∃ r ∈ t, r.1 = c) → translate (t ++ t2) s = translate t s) ∧
+    ((∀ c ∈ s, ∀ r ∈ t, r.1 ≠ c) → translate (t ++ t2) s = translate t2 s) := by
+  simp only [translate_eq_map]
+  refine ⟨?_, by simp, ?_, ?_, ?_⟩
+  · rw [map_eq_self_iff]; intro c _; rfl
+  · intro h; rw [map_eq_self_iff]; intro c hc; exact trC_of_not_key t c (h c hc)
+  · intro h; apply List.map_congr_left; intro c hc
+    rw [trC_append, if_pos]
+    obtain ⟨r, hr, hk⟩ := h c hc
+    exact List.any_eq_true.2 ⟨r, hr, by simp [hk]⟩
+  · intro h; apply List.map_congr_left; intro c hc
+    rw [trC_append, if_neg]
+    intro hany
+    obtain ⟨r, hr, hk⟩ := List.any_eq_true.1 hany
+    exact h c hc r hr (by simpa using hk)
+
+/-- `lower` and `upper` ARE translations: by the 26-row tables `A..Z ↦ a..z` and `a..z ↦ A..Z` -/
+theorem case_maps_eq_translate (s : Str) :
+    lower s = translate ((List.range 26).map (fun i => (Char.ofNat (65 + i), Char.ofNat (97 + i)))) s ∧
+    upper s = translate ((List.range 26).map (fun i => (Char.ofNat (97 + i), Char.ofNat (65 + i)))) s := by
+  simp only [translate_eq_map, lower, upper]
+  exact ⟨List.map_congr_left fun c _ => (trC_lowerTable c).symm, List.map_congr_left fun c _ => (trC_upperTable c).symm⟩
+
+/-! ### zfill -/
+
+/-- **zfill** in closed form: zeros go between a leading `-` and the rest, otherwise in front; never cut -/
+theorem zfill_spec (w : Nat) (s : Str) :
+    (∀ b, s = '-' :: b → zfill1 w s = '-' :: (List.replicate (w - 1 - b.length) '0' ++ b)) ∧
+    (s.head? ≠ some '-' → zfill1 w s = List.replicate (w - s.length) '0' ++ s) ∧
+    (w ≤ s.length → zfill1 w s = s) := by
+  refine ⟨fun b hb => hb ▸ zfill1_neg w b, zfill1_nonneg w s, ?_⟩
+  intro hw
+  by_cases h : s.head? = some '-'
+  · obtain ⟨b, rfl⟩ : ∃ b, s = '-' :: b := by
+      cases s with
+      | nil => simp at h
+      | cons c cs => simp at h; exact ⟨cs, by rw [h]⟩
+    rw [zfill1_neg]
+    have : w - 1 - b.length = 0 := by simp at hw; omega
+    rw [this]; rfl
+  · rw [zfill1_nonneg w s h]
+    have : w - s.length = 0 := by omega
+    rw [this]; rfl
+
+/-- filling twice = filling once to the larger width (so `zfill` is idempotent) -/
+theorem zfill_zfill (w1 w2 : Nat) (s : Str) : zfill1 w2 (zfill1 w1 s) = zfill1 (max w1 w2) s := by
+  by_cases h : s.head? = some '-'
+  · obtain ⟨b, rfl⟩ : ∃ b, s = '-' :: b := by
+      cases s with
+      | nil => simp at h
+      | cons c cs => simp at h; exact ⟨cs, by rw [h]⟩
+    rw [zfill1_neg, zfill1_neg, zfill1_neg, ← List.append_assoc, List.replicate_append_replicate]
+    simp only [List.length_append, List.length_replicate]
+    congr 3; omega
+  · rw [zfill1_nonneg w1 s h, zfill1_nonneg (max w1 w2) s h]
+    have h2 : (List.replicate (w1 - s.length) '0' ++ s).head? ≠ some '-' := by
+      cases hn : w1 - s.length with
+      | zero => simpa using h
+      | succ n => simp [List.replicate_succ]
+    rw [zfill1_nonneg _ _ h2, ← List.append_assoc, List.replicate_append_replicate]
+    simp only [List.length_append, List.length_replicate]
+    congr 2; omega
+
+/-- for a text without a leading `-` that is not longer than the width, `zfill` is `rjust` with fill `'0'`;
+after a `-`, it is `rjust` of the rest to one less -/
+theorem zfill_rjust (w : Nat) (s : Str) :
+    (s.head? ≠ some '-' → s.length ≤ w → zfill1 w s = rjust s w '0') ∧
+    (∀ b, s = '-' :: b → b.length ≤ w - 1 → zfill1 w s = '-' :: rjust b (w - 1) '0') := by
+  constructor
+  · intro h hl
+    rw [zfill1_nonneg w s h, (rjust_spec s w '0').2.1 hl]
+  · rintro b rfl hl
+    rw [zfill1_neg, (rjust_spec b (w - 1) '0').2.1 hl]
+
+/-- `zfill` does not change the number the digits denote (`digitsVal`: base-10 value of a digit text) -/
+theorem zfill_value (w : Nat) (s : Str) :
+    (s.head? ≠ some '-' → digitsVal (zfill1 w s) = digitsVal s) ∧
+    (∀ b, s = '-' :: b → ∃ z, zfill1 w s = '-' :: z ∧ digitsVal z = digitsVal b ∧ z.all isDigitC = b.all isDigitC) ∧
+    (isDecimal s = true → isDecimal (zfill1 w s) = true) := by
+  refine ⟨?_, ?_, ?_⟩
+  · intro h; rw [zfill1_nonneg w s h, digitsVal_zeros]
+  · rintro b rfl
+    exact ⟨_, zfill1_neg w b, digitsVal_zeros _ _, all_digit_append_zeros _ _⟩
+  · intro hd
+    have hne : s ≠ [] := by rintro rfl; simp [isDecimal] at hd
+    have hall : s.all isDigitC = true := by simp [isDecimal] at hd; simpa using hd.2
+    have hh : s.head? ≠ some '-' := by
+      cases s with
+      | nil => simp
+      | cons c cs =>
+        have hc : isDigitC c = true := by simp at hall; exact hall.1
+        simp; rintro rfl; revert hc; decide
+    rw [zfill1_nonneg w s hh]
+    unfold isDecimal
+    rw [all_digit_append_zeros, hall]
+    cases s with
+    | nil => exact absurd rfl hne
+    | cons c cs => simp
+
+/-- the refusal test of `zfill` lets every (signed) run of decimal digits through, and refuses the empty text -/
+theorem zfill_accepts_integers (s : Str) (h : isDecimal s = true) :
+    isF64Literal s = true ∧ isF64Literal ('-' :: s) = true ∧ isF64Literal ('+' :: s) = true ∧
+    isF64Literal [] = false := by
+  have hne : s ≠ [] := by rintro rfl; simp [isDecimal] at h
+  have hall : s.all isDigitC = true := by simp [isDecimal] at h; simpa using h.2
+  exact ⟨isF64Literal_digits s hne hall, isF64Literal_signed_digits '-' (.inl rfl) s hne hall,
+    isF64Literal_signed_digits '+' (.inr rfl) s hne hall, by decide⟩
+
+/-- **the refusal test of `zfill`** (`parse::<f64>().is_err()`) accepts exactly the texts of the grammar
+`[+|-] ( digits [. digits] | . digits ) [ (e|E) [+|-] digits⁺ ]  |  [+|-] (inf | infinity | nan)` in any letter case
+(`a`, `b`, `d` are runs of decimal digits, `m` the mantissa, `e` the exponent part) -/
+theorem zfill_literal_grammar (s : Str) :
+    isF64Literal s = true ↔
+      ∃ sg body, s = sg ++ body ∧ (sg = [] ∨ sg = ['-'] ∨ sg = ['+']) ∧
+        ((∃ m e, body = m ++ e ∧
+            (∃ a b, (∀ c ∈ a, isDigitC c = true) ∧ (∀ c ∈ b, isDigitC c = true) ∧
+              ((m = a ∧ a ≠ []) ∨ (m = a ++ '.' :: b ∧ (a ≠ [] ∨ b ≠ [])))) ∧
+            (e = [] ∨ ∃ c sg' d, (c = 'e' ∨ c = 'E') ∧ (sg' = [] ∨ sg' = ['-'] ∨ sg' = ['+']) ∧ d ≠ [] ∧
+              (∀ x ∈ d, isDigitC x = true) ∧ e = c :: (sg' ++ d))) ∨
+         (lower body = ['i', 'n', 'f'] ∨ lower body = ['i', 'n', 'f', 'i', 'n', 'i', 't', 'y'] ∨
+          lower body = ['n', 'a', 'n'])) :=
+  isF64Literal_iff_grammar s
+
+/-- hence the array operation, on an array of (signed) digit runs, is never refused and fills every position -/
+theorem zfillA_integers (a : SArr) (w : Nat) (hwf : a.WF)
+    (hd : ∀ s ∈ a.elems, isDecimal s = true ∨ ∃ b, s = '-' :: b ∧ isDecimal b = true) :
+    ∃ r, zfillA a w = .ok r ∧ r.shape = a.shape ∧
+      ∀ p (h : p < a.elems.length), r.elems[p]? = some (zfill1 w a.elems[p]) := by
+  have hno : a.elems.any (fun s => !isF64Literal s) = false := by
+    rw [List.any_eq_false]
+    intro s hs
+    rcases hd s hs with h | ⟨b, rfl, h⟩
+    · simp [(zfill_accepts_integers s h).1]
+    · simp [(zfill_accepts_integers b h).2.1]
+  obtain ⟨r, hr, hshape, _, hat⟩ := lift1_at (zfill1 w) a hwf
+  exact ⟨r, by unfold zfillA; rw [hno]; simpa using hr, hshape, hat⟩
+
+/-! ### non-vacuity (extension) -/
+
+example : lower ['A', 'b', '-', 'Z'] = ['a', 'b', '-', 'z'] ∧ upper ['a', 'B', '1', 'z'] = ['A', 'B', '1', 'Z'] ∧
+    swapcase ['a', 'B', '1'] = ['A', 'b', '1'] ∧ capitalize ['a', 'B', 'c'] = ['A', 'B', 'c'] := by decide
+example : isLower ['a', '1', ' '] = true ∧ isLower ['a', 'B'] = false ∧ isLower ['1'] = false ∧
+    isUpper ['A', '-'] = true ∧ isUpper [] = false := by decide
+example : isAlpha ['a', 'B'] = true ∧ isAlpha [] = false ∧ isAlpha ['a', '1'] = false ∧ isAlnum ['a', '1'] = true ∧
+    isDigit ['1', '2'] = false ∧ isDigit ['7'] = true ∧ isDecimal ['1', '2'] = true ∧
+    isSpace [' ', '\t', '\n'] = true ∧ isSpace [' ', 'a'] = false := by decide
+example : translate [('a', 'x'), ('a', 'y'), ('b', 'a')] ['a', 'b', 'c'] = ['x', 'a', 'c'] := by decide
+example : zfill1 5 ['-', '4', '2'] = ['-', '0', '0', '4', '2'] ∧ zfill1 5 ['4', '2'] = ['0', '0', '0', '4', '2'] ∧
+    zfill1 0 ['-', '1'] = ['-', '1'] ∧ zfill1 4 ['+', '5'] = ['0', '0', '+', '5'] := by decide
+example : digitsVal ['0', '4', '2'] = 42 := by decide
+example : isF64Literal ['1', '.', '5', 'e', '3'] = true ∧ isF64Literal ['a'] = false ∧
+    isF64Literal ['-', '7'] = true ∧ isF64Literal ['.', '5'] = true ∧ isF64Literal ['.'] = false ∧
+    isF64Literal ['1', 'e'] = false ∧ isF64Literal ['+', 'N', 'a', 'N'] = true ∧ isF64Literal ['-', '-', '1'] = false ∧
+    isF64Literal ['1', '.', 'E', '-', '2'] = true := by decide
+example : zfillA ⟨[['7'], ['-', '7']], [2]⟩ 3 = .ok ⟨[['0', '0', '7'], ['-', '0', '7']], [2]⟩ := by decide
 
 end ArrModel.C17
